@@ -153,8 +153,12 @@ def expect(case, octal_zero=True):
     return ('ok', spans, values)
 
 
-def acceptable(spans, values, v):
-    """set of Values strings the statement allows for v (ties are left open), or None for ValueError"""
+def acceptable(spans, values, v, loose=False):
+    """set of Values strings the statement allows for v, or None for ValueError.
+    Among overlapping proper ranges the FIRST enclosing one in qualifier order claims v (DESIGN §8 `claims`,
+    quantifier "overlapping and unordered entries"); ties the statement leaves open stay open: repeated exact
+    entries, a degenerate range "3..3" vs an enclosing proper range, repeated unclaimed markers.
+    loose=True: every enclosing range (used only to label a violation)."""
     syn = [values[i] for i, s in enumerate(spans) if s is not None and s[2] and s[0] == v]
     deg = [values[i] for i, s in enumerate(spans) if s is not None and not s[2] and s[0] == s[1] == v]
     rng = [values[i] for i, s in enumerate(spans) if s is not None and s[0] != s[1] and s[0] <= v <= s[1]]
@@ -162,7 +166,7 @@ def acceptable(spans, values, v):
     if syn:
         return set(syn + deg), 'exact'
     if deg or rng:
-        return set(deg + rng), 'range'
+        return set(deg + (rng if loose else rng[:1])), 'range'
     if unc:
         return set(unc), 'unclaimed'
     return None, 'none'
@@ -239,8 +243,12 @@ def oracle(run, case, real):
                         {'v': v, 'got': o, 'acceptable': sorted(acc)})
             break
         elif o not in acc:
-            run.violate({'kind': 'tovalues_wrong_entry', 'claimed_by': how}, case,
-                        {'v': v, 'got': o, 'acceptable': sorted(acc)})
+            if o in acceptable(spans, values, v, loose=True)[0]:
+                run.violate({'kind': 'tovalues_not_first_enclosing_range_in_qualifier_order'}, case,
+                            {'v': v, 'got': o, 'first_enclosing': sorted(acc)})
+            else:
+                run.violate({'kind': 'tovalues_wrong_entry', 'claimed_by': how}, case,
+                            {'v': v, 'got': o, 'acceptable': sorted(acc)})
             break
     # tobinary(s)
     for s, o in zip(case['strs'], r['tb']):
@@ -261,7 +269,7 @@ def oracle(run, case, real):
             # members map back to s unless another entry has priority for them
             for v in range(b[0], min(b[1], b[0] + 400) + 1):
                 if v in tv and tv[v] != s:
-                    acc, _ = acceptable(spans, values, v)
+                    acc, _ = acceptable(spans, values, v, loose=True)
                     if acc == {s}:
                         run.violate({'kind': 'tobinary_member_does_not_map_back'}, case, {'s': s, 'v': v, 'got': tv[v]})
                         break
